@@ -250,3 +250,29 @@ package p2p
 //@   invariant soft-errors: softErrsOK(softErrs)
 //@   invariant collected: forall a int @ at(headers, a) :: off(headers) <= a && a < off(headers) + len(headers) ==> !at(headers, a).IsZero() && validated(at(headers, a)) && (useTrackedPeers ==> (passedVerify(reqParams.TrustedHead, at(headers, a)) || has(softErrs, at(headers, a).Hash().String())))
 //@   invariant frame: fresh(arr(headers)) && zero.IsZero()
+
+// ---- Subscriber (C11): verdict of the gossip validator
+
+//@ field Subscriber.verifier(ctx, h)
+//@   maypanic
+
+//@ func (*Subscriber).extractHeader(s, msg)
+//@   props C11
+//@   maypanic
+//@   modifies $now
+//@   ensures [C11] validated: result1 == nil ==> validated(result0)
+//@   ensures [C11] decoded: result1 == nil ==> (old(msg.ValidatorData) == nil ==> decodedFrom(result0, msg.Data)) && (old(msg.ValidatorData) != nil ==> old(msg.ValidatorData) == anyOf(result0))
+
+//@ func (*Subscriber).verifyMessage(s, ctx, p, msg)
+//@   props C11
+//@   ghost vres error := result0 of call verifier #0
+//@   ghost xerr error := result1 of call extractHeader #0
+//@   ghost xhdr H := result0 of call extractHeader #0
+//@   modifies $now, pubsub.Message.ValidatorData
+//@   ensures [C11] accept-iff: result == pubsub.ValidationAccept <==> (called(vres) && vres == nil)
+//@   ensures [C11] accept-delivers-header: result == pubsub.ValidationAccept ==> xerr == nil && validated(xhdr) && msg.ValidatorData == anyOf(xhdr)
+//@   ensures [C11] verifier-only-after-decode: called(vres) ==> called(xerr) && xerr == nil
+//@   ensures [C11] soft-is-ignored: called(vres) && asVerr(vres) != nil && asVerr(vres).SoftFailure ==> result == pubsub.ValidationIgnore
+//@   ensures [C11] hard-is-rejected: called(vres) && vres != nil && !(asVerr(vres) != nil && asVerr(vres).SoftFailure) ==> result == pubsub.ValidationReject
+//@   ensures [C11] undecodable-is-rejected: (called(xerr) && xerr != nil) ==> result == pubsub.ValidationReject
+//@   ensures [C11] verdict: result == pubsub.ValidationAccept || result == pubsub.ValidationIgnore || result == pubsub.ValidationReject
